@@ -191,6 +191,7 @@ class Req(object):
                  'spawns_after', 'signals_after', 'events_after',
                  'queued_before', 'queued_after', 'excl_before', 'excl_after',
                  'wname', 'accepted', 'done_t', 'done_step', 'well_formed',
+                 'env_during',
                  'disp_call_end', 'done_seq', 'done_call', 'disp_jumps',
                  'done_jumps')
 
@@ -757,6 +758,7 @@ class World(object):
                 r.snap_before = self.snapshot_fn(self)
             r.queued_before = (len(self.loop._ready),
                                len(self.loop.pending_timers()))
+            r.env_during = -sum(self.sim.fired.values())
         self.dispatching = r
         n0 = len(self.ctx.replies)
         try:
@@ -772,6 +774,10 @@ class World(object):
                 r.disp_call_end = self.sim.ncalls
                 r.queued_after = (len(self.loop._ready),
                                   len(self.loop.pending_timers()))
+                # environment events (deliveries, deaths ...) that fired at
+                # kernel-call boundaries inside this dispatch
+                r.env_during = (r.env_during or 0) + \
+                    sum(self.sim.fired.values())
                 if self.snapshot_fn is not None:
                     r.snap_after = self.snapshot_fn(self)
                 # a waiting request with no synchronous reply was accepted
